@@ -445,5 +445,19 @@ package node
 //@ func parseScanArgs(args [][]byte) (cursor []byte, match string, count int, err error)
 //@   ensures len(args) >= 1 ==> sameSlice(cursor, args[0])
 //@   ensures len(args) == 0 ==> err == nil && count == 0
+//@   ensures err == nil ==> count >= 0
 //@ loop 1
-//@   invariant 0 <= i && sameSlice(cursor, old(args[0]))
+//@   invariant 0 <= i && sameSlice(cursor, old(args[0])) && (err == nil ==> count >= 0)
+
+// merged-scan handlers run in goroutines of the server fan-out without recover: they must not panic on any
+// argument vector the fan-out passes (C11), and the direction is taken from the command name only (C13)
+//@ func (nd *KVNode) scanCommand(cmd redcon.Command) (interface{}, error)
+//@   requires nd != nil && nd.store != nil && len(cmd.Args) >= 1
+//@   modifies *
+//@ loop 1
+//@   invariant true
+//@ func (nd *KVNode) advanceScanCommand(cmd redcon.Command) (interface{}, error)
+//@   requires nd != nil && nd.store != nil && len(cmd.Args) >= 1
+//@   modifies *
+//@ loop 1
+//@   invariant true
